@@ -1,13 +1,13 @@
 #!/bin/sh
 # usage: tools/run_all.sh quick|thorough [ids...]   -- runs the checks one after another, prints wall time and exit status
 tier=${1:-quick}; shift
-ids=${*:-C01 C02 C03 C04 C05 C06 C07 C08 C09 C10 C11 C12 C13 C14 C15 C16 C17 C19 C20}
+ids=${*:-C01 C02 C03 C04 C05 C06 C07 C08 C09 C10 C11 C12 C13 C14 C15 C16 C17 C18 C19 C20}
 cd "$(dirname "$0")/.."
 for id in $ids; do
   s=$(date +%s)
-  ./check $id --tier $tier > /tmp/run_all_$id.log 2>&1
+  ./check $id --tier $tier > /tmp/run_all_${tier}_$id.log 2>&1
   rc=$?
   e=$(date +%s)
-  echo "$id tier=$tier exit=$rc wall=$((e-s))s $(grep "^\[$id" /tmp/run_all_$id.log | tail -1 | cut -c1-220)"
-  grep -E "^(VIOLATION|ENGINE-ERROR|INCONCLUSIVE)" /tmp/run_all_$id.log | head -3 | cut -c1-300
+  echo "$id tier=$tier exit=$rc wall=$((e-s))s $(grep "^\[$id" /tmp/run_all_${tier}_$id.log | tail -1 | cut -c1-220)"
+  grep -E "^(VIOLATION|ENGINE-ERROR|INCONCLUSIVE)" /tmp/run_all_${tier}_$id.log | head -3 | cut -c1-300
 done
